@@ -68,3 +68,24 @@ Lemma gen_cfi_table_keys :
   forallb (fun k => existsb (N.eqb k) Constants.DwCfa_values) (map fst CfiTable.high_table ++ map fst CfiTable.low_table) = true /\
   forallb (fun k => N.land k CfiTable.high_bits_mask =? 0) (map fst CfiTable.low_table) = true.
 Proof. repeat split; vm_compute; reflexivity. Qed.
+
+(* ---- for ALL inputs (any operand bytes, byte order, address size, section offset, both build modes) *)
+Ltac crack H :=
+  repeat (cbn [bind] in H;
+          match type of H with
+          | (if ?x then _ else _) = Ok _ =>
+              let E := fresh "E" in destruct x eqn:E; try (vm_compute in E; discriminate E); try discriminate H
+          | bind ?x _ = Ok _ => destruct x eqn:?; cbn [bind] in H; try discriminate H
+          | (match ?x with _ => _ end) = Ok _ => destruct x eqn:?; try discriminate H
+          end).
+
+(* whenever the model decodes an instruction, its variant is the one CallFrameInstruction::parse builds for the byte *)
+Lemma gen_cfi_table_all_inputs : forall dbg be asize aarch64 off b t i r',
+  parse_insn dbg be asize aarch64 off (b :: t) = Ok (i, r') ->
+  gen_cfi_variant aarch64 (b2n b) = Some (insn_ctor i).
+Proof.
+  intros dbg be asize aarch64 off b t i r' H.
+  unfold parse_insn in H. cbn [GV.Model.Leb.read_u8 bind] in H.
+  destruct b; crack H; injection H as <- <-; try (vm_compute; reflexivity).
+  all: destruct aarch64; vm_compute; try reflexivity; vm_compute in E; discriminate.
+Qed.
